@@ -171,6 +171,25 @@ func isRep(c callCase) bool {
 	return false
 }
 
+var (
+	callVM     *otto.Otto
+	callVMUses int
+)
+
+// getCallVM hands out a runtime with the call family defined; it is shared between cases that
+// cannot change it (everything a case binds - A0…, T, R - is rebound before use) and replaced often.
+func getCallVM() *otto.Otto {
+	if callVM == nil || callVMUses > 300 {
+		callVM = newVM()
+		if _, err := callVM.Run(callSrc); err != nil {
+			panic(err)
+		}
+		callVMUses = 0
+	}
+	callVMUses++
+	return callVM
+}
+
 func checkCall(c callCase) harness.Outcome {
 	o := harness.Outcome{Classes: []string{"api:" + c.API, "this:" + c.This, "nargs:" + strconv.Itoa(len(c.Args))}, Nontrivial: true}
 	if c.API == "otto" {
@@ -194,9 +213,9 @@ func checkCall(c callCase) harness.Outcome {
 			return o
 		}
 	}
-	vm := newVM() // calls may mutate o / G: one runtime per case
-	if _, err := vm.Run(callSrc); err != nil {
-		panic(err)
+	vm := getCallVM()
+	if !c.New && writesThis[c.Fn] {
+		callVM = nil // the callee assigns to o / the global object: the next case gets a fresh runtime
 	}
 	// materialise the arguments once: the Go call and the script call receive the same Go values
 	args := make([]interface{}, len(c.Args))
@@ -283,6 +302,7 @@ func checkCall(c callCase) harness.Outcome {
 		}
 	})
 	if p != "" {
+		callVM = nil
 		return fail("Go panic out of the call API: %s", p)
 	}
 	if thisUsingBuiltin[c.Fn] && c.API != "object" && c.This != "nil" && !c.New && (c.This == "undefined" || c.This == "null" || (c.This == "go" && m15.Counterpart(*c.ThisD).Kind == "undefined")) {
@@ -354,8 +374,8 @@ func checkCall(c callCase) harness.Outcome {
 var callFacet = harness.Register(&harness.Facet[callCase]{
 	Name: "calls",
 	Rule: "rapid: Value.Call(this, args…) on callees incl. bound, constructor, throwing, built-in and non-callable values; Object.Call(name, args…) on o, o.inner, the global object, Math, an array, incl. missing / non-function properties; Otto.Call(source, this, args…) over source forms (identifier, member, bracket, parenthesised, comma, bind, function expression, README examples), this = nil / undefined / null / object / Go value, and the documented \"new \" prefix; 0-3 Go arguments of every kind of facet 1 (scalars of every width, strings, nil, containers to depth 2, structs, pointers); oracle: the same call written in script on the same runtime with the same Go values bound as globals (result rendered by a deep printer: types, sign of zero, string lengths, containers), error iff the language throws (same error class), and for the reporter family the ES5 this value, the argument count and the argument values against the counterpart model; every case non-trivial; distinct by case JSON",
-	Quick:    3500,
-	Thorough: 30000,
+	Quick:    8000,
+	Thorough: 60000,
 	Gen:      genCall,
 	Check:    checkCall,
 })
